@@ -482,6 +482,53 @@ func runC01(c *Checker) {
 	if len(deliveries) != 1 {
 		c.fail("WIN-1", "receiveLoop|one delivery site", rl.Pos(), fmt.Sprintf("expected exactly one delivery site, found %d", len(deliveries)))
 	}
+	// (a') the answers (ACK, NACK) leave in the order in which the packets were judged: they are sent
+	// by the receive goroutine itself, not by goroutines it spawns (an ACK overtaken by later ACKs and
+	// NACKs can be taken for the acknowledgement of a packet that reuses its sequence number)
+	if sp := w.Func("(*gbn.GoBackNConn).sendPacket"); sp != nil {
+		bad := ""
+		n := 0
+		sites, _ := w.CallersOf(sp)
+		for _, sx := range sites {
+			isAns := false
+			for _, a := range sx.Instr.Common().Args {
+				if mi, ok := a.(*ssa.MakeInterface); ok {
+					if nn := namedOf(deref(mi.X.Type())); nn != nil && (nn.Obj().Name() == "PacketACK" || nn.Obj().Name() == "PacketNACK") {
+						isAns = true
+					}
+				}
+			}
+			if !isAns {
+				continue
+			}
+			n++
+			top := sx.Caller
+			for top.Parent() != nil {
+				// a closure: fine when it is only called, not started as a goroutine
+				par := top.Parent()
+				started := false
+				allInstrs(par, func(in ssa.Instruction) {
+					if g, ok := in.(*ssa.Go); ok {
+						if mc, ok := g.Common().Value.(*ssa.MakeClosure); ok && mc.Fn == ssa.Value(top) {
+							started = true
+						}
+					}
+				})
+				if started {
+					bad = fnName(sx.Caller) + " at " + w.pos(instrPos(sx.Instr))
+				}
+				top = par
+			}
+			if top != rl {
+				sub := w.ReachableSameGoroutine(rl)
+				if !sub[top] {
+					bad = fnName(sx.Caller) + " at " + w.pos(instrPos(sx.Instr))
+				}
+			}
+		}
+		c.decide(bad == "" && n >= 2, "WIN-1", "receiveLoop|answers sent by the receive goroutine itself", rl.Pos(), fmt.Sprintf("%d ACK/NACK sends, all in the receive goroutine", n),
+			"an ACK/NACK is sent from another goroutine ("+bad+"): answers can overtake each other, and a stale ACK acknowledges a packet that reuses its sequence number")
+	}
 	// (b) recvSeq advance
 	stores := w.Stores(fRecvSeq)
 	nAdv := 0
